@@ -115,6 +115,16 @@ def gen_c14(tier, rng):
             ops += ["pk plwrite a %d %d" % (rng.randrange(0, 2), rng.choice([1, 2, 0x10, 0xFF, rng.getrandbits(8)])), "pk show a",
                     "pk %s b a" % rng.choice(["copy", "assign"]), "pk show b", "pk show a", "pk eq a b", "pk eq b a"]
         cases.append(Case("c14w", ops, True, ("wire-packet-modified-in-place",), meta={"copy_equals_source": True}))
+    # payloads the application marked INVALID after filling them (type 0 set in place: the bytes stay): copy construction, copy assignment
+    # and the packet-level copies must all carry the bytes over (a copy constructor that goes through the "skip the memcpy for an invalid
+    # type" constructor zero-fills them; assignment does not, so the two kinds of copy disagree)
+    for _ in range(20 if tier == "quick" else 200):
+        d = proto.rand_bytes(rng, rng.choice([1, 5, 13, 40]))
+        ops = ["pl new a 0101 " + proto.hexs(d), "pl settype a 0", "pl show a", "pl copy b a", "pl show b", "pl eq a b",
+               "pl new c 0103 " + proto.hexs(proto.rand_bytes(rng, 3)), "pl assign c a", "pl show c", "pl eq c b"]
+        ops += [Pkt(0x0108, d + b"\x01").line("p"), "pk plsettype p 0", "pk show p", "pk copy q p", "pk show q", "pk eq p q",
+                Pkt(0x0103, b"\x01\x02").line("t"), "pk assign t p", "pk show t", "pk eq t q"]
+        cases.append(Case("c14i", ops, True, ("invalid-typed-payload-copied",), meta={"copy_equals_source": True}))
     # TECMP payload objects: copy / assignment / equality (incl. x == x and empty payloads)
     for _ in range(20 if tier == "quick" else 200):
         ops = []
@@ -283,8 +293,25 @@ def st_packet(rng, kind, dev, ifid, tag):
                flags=(tag * 37) & 0xB3, seg=(0, 4, 8, 12)[(tag // 2) % 4])
 
 
-def gen_c16(tier, rng):
+def c16_huge_if_cases(rng):
+    """interface status payloads of 65536 bytes and more (32750 stream ids + vendor data): the 16-bit wire length of such a packet wraps;
+    the tracker must store them like any other (new interface: an entry; known interface: the latest packet)"""
     cases = []
+    for total_ids, vend in ((32750, 32750), (32750, 32752), (40000, 25570)):
+        ops = [st_packet(rng, "cm", 1, 0, 101).line("p1")]
+        small = st_packet(rng, "if", 1, 10, 102)
+        ops.append(small.line("p2"))
+        big = Pkt(0x0302, proto.if_payload(stream_ids=bytes([7]) * total_ids, vendor=bytes([9]) * vend, if_id=10, rx=5), ver=1, dev=1, stream=3, seq=4, ts=103)
+        ops.append(big.line("p3"))
+        big2 = Pkt(0x0302, proto.if_payload(stream_ids=bytes([8]) * total_ids, vendor=bytes([6]) * vend, if_id=20, rx=6), ver=1, dev=1, stream=3, seq=5, ts=104)
+        ops.append(big2.line("p4"))
+        ops += ["st s update p1", "st s update p2", "st s dump", "st s update p3", "st s dump", "st s update p4", "st s dump", "st s ifidx 1 10", "st s ifidx 1 20"]
+        cases.append(Case("c16big", ops, nontrivial=True, tags=("if-status-of-64KiB-and-more",), meta={"noshrink": True}))
+    return cases
+
+
+def gen_c16(tier, rng):
+    cases = c16_huge_if_cases(rng)
     devs = [1, 2, 3]
     ifs = [10, 20]
     # alphabet of operations; packets are defined on the fly so that every update carries a distinct packet
